@@ -525,4 +525,195 @@ theorem ginv {σ : Type} (g0 : σ) (s : GSys σ) (h : GExec g0 s) : GInv s := by
         · subst hut; simp at hu
         · rw [upd_ne _ _ hut] at hu; exact ih.atomic u start' tr' hu
 
+/-! ### the fine-grained locked system with histories refines the atomic one -/
+
+structure FInv (s : FSys V) : Prop where
+  mutex : ∀ t, (s.pc t).isCrit = true → s.lock = some t
+  locked : ∀ t, s.lock = some t → (s.pc t).isCrit = true
+  atomic : ∀ t id c start tr, s.pc t = .crit id c start tr → s.g = tr.foldl (fun a f => f a) start
+
+theorem finv {F : Nat} (g0 : Graph V) (s : FSys V) (h : FExec F g0 s) : FInv s := by
+  induction h with
+  | init => exact ⟨by intro t h; simp [FSys.init, FPc.isCrit] at h, by intro t h; simp [FSys.init] at h,
+      by intro t id c start tr h; simp [FSys.init] at h⟩
+  | @step s s' _ hs ih =>
+    cases hs with
+    | invoke t c hpc =>
+      refine ⟨?_, ?_, ?_⟩ <;> dsimp only
+      · intro u hu
+        by_cases hut : u = t
+        · subst hut; simp [FPc.isCrit] at hu
+        · rw [upd_ne _ _ hut] at hu; exact ih.mutex u hu
+      · intro u hu
+        have := ih.locked u hu
+        by_cases hut : u = t
+        · subst hut; rw [hpc] at this; simp [FPc.isCrit] at this
+        · rw [upd_ne _ _ hut]; exact this
+      · intro u id c' start tr hu
+        by_cases hut : u = t
+        · subst hut; simp at hu
+        · rw [upd_ne _ _ hut] at hu; exact ih.atomic u id c' start tr hu
+    | acquire t id c hpc hlock =>
+      refine ⟨?_, ?_, ?_⟩ <;> dsimp only
+      · intro u hu
+        by_cases hut : u = t
+        · subst hut; rfl
+        · rw [upd_ne _ _ hut] at hu
+          have := ih.mutex u hu
+          rw [hlock] at this; cases this
+      · intro u hu
+        simp only [Option.some.injEq] at hu
+        subst hu
+        simp [FPc.isCrit]
+      · intro u id' c' start tr hu
+        by_cases hut : u = t
+        · subst hut
+          simp only [upd_same, FPc.crit.injEq] at hu
+          obtain ⟨-, -, rfl, rfl⟩ := hu
+          rfl
+        · rw [upd_ne _ _ hut] at hu
+          have := ih.mutex u (by rw [hu]; rfl)
+          rw [hlock] at this; cases this
+    | micro t id c start tr f hpc =>
+      have hlt := ih.mutex t (by rw [hpc]; rfl)
+      refine ⟨?_, ?_, ?_⟩ <;> dsimp only
+      · intro u hu
+        by_cases hut : u = t
+        · subst hut; exact hlt
+        · rw [upd_ne _ _ hut] at hu; exact ih.mutex u hu
+      · intro u hu
+        rw [hlt] at hu
+        simp only [Option.some.injEq] at hu
+        subst hu
+        simp [FPc.isCrit]
+      · intro u id' c' start' tr' hu
+        by_cases hut : u = t
+        · subst hut
+          simp only [upd_same, FPc.crit.injEq] at hu
+          obtain ⟨-, -, rfl, rfl⟩ := hu
+          rw [List.foldl_append, ← ih.atomic u id c start tr hpc]
+          rfl
+        · rw [upd_ne _ _ hut] at hu
+          have := ih.mutex u (by rw [hu]; rfl)
+          rw [hlt] at this
+          exact absurd (Option.some.inj this).symm hut
+    | finish t id c start tr hpc _ =>
+      have hlt := ih.mutex t (by rw [hpc]; rfl)
+      refine ⟨?_, ?_, ?_⟩ <;> dsimp only
+      · intro u hu
+        by_cases hut : u = t
+        · subst hut; simp [FPc.isCrit] at hu
+        · rw [upd_ne _ _ hut] at hu
+          have := ih.mutex u hu
+          rw [hlt] at this
+          exact absurd (Option.some.inj this).symm hut
+      · intro u hu; cases hu
+      · intro u id' c' start' tr' hu
+        by_cases hut : u = t
+        · subst hut; simp at hu
+        · rw [upd_ne _ _ hut] at hu; exact ih.atomic u id' c' start' tr' hu
+    | respond t id c r hpc =>
+      refine ⟨?_, ?_, ?_⟩ <;> dsimp only
+      · intro u hu
+        by_cases hut : u = t
+        · subst hut; simp [FPc.isCrit] at hu
+        · rw [upd_ne _ _ hut] at hu; exact ih.mutex u hu
+      · intro u hu
+        have := ih.locked u hu
+        by_cases hut : u = t
+        · subst hut; rw [hpc] at this; simp [FPc.isCrit] at this
+        · rw [upd_ne _ _ hut]; exact this
+      · intro u id' c' start tr hu
+        by_cases hut : u = t
+        · subst hut; simp at hu
+        · rw [upd_ne _ _ hut] at hu; exact ih.atomic u id' c' start tr hu
+
+theorem abs_upd (pc : Tid → FPc V) (t : Tid) (x : FPc V) :
+    (fun u => (upd pc t x u).abs) = upd (fun u => (pc u).abs) t x.abs := by
+  funext u
+  by_cases hut : u = t
+  · subst hut; simp
+  · simp [upd_ne _ _ hut]
+
+theorem upd_upd {α : Type} (f : Nat → α) (t : Nat) (a b : α) : upd (upd f t a) t b = upd f t b := by
+  funext u
+  by_cases hut : u = t
+  · subst hut; simp
+  · simp [upd_ne _ _ hut]
+
+theorem upd_self {α : Type} (f : Nat → α) (t : Nat) (a : α) (h : f t = a) : upd f t a = f := by
+  funext u
+  by_cases hut : u = t
+  · subst hut; simp [h]
+  · simp [upd_ne _ _ hut]
+
+/-- **refinement**: every execution of the fine-grained locked system is, through `FSys.abs`, an
+    execution of the atomic system with the same history and the same critical-section order -/
+theorem fine_refines {F : Nat} (g0 : Graph V) (s : FSys V) (h : FExec F g0 s) : Exec F g0 s.abs := by
+  induction h with
+  | init => exact .init
+  | @step s s' hex hs ih =>
+    have hinv := finv g0 s hex
+    have hgsame : ∀ (t : Tid) (x : FPc V), (s.pc t).isCrit = false →
+        (match s.lock with
+          | some u => ((upd s.pc t x u).start?).getD s.g
+          | none => s.g) = s.abs.g := by
+      intro t x ht
+      simp only [FSys.abs]
+      cases hlk : s.lock with
+      | none => rfl
+      | some u =>
+        dsimp only
+        have hu := hinv.locked u hlk
+        have hut : u ≠ t := by intro h; subst h; rw [ht] at hu; cases hu
+        rw [upd_ne _ _ hut]
+    cases hs with
+    | invoke t c hpc =>
+      have hstep := Step.invoke (F := F) s.abs t c (by simp [FSys.abs, hpc, FPc.abs])
+      refine cast ?_ (Exec.step ih hstep)
+      congr 1
+      simp only [FSys.abs]
+      congr 1
+      · exact (hgsame t _ (by rw [hpc]; rfl)).symm
+      · rw [abs_upd]; rfl
+    | acquire t id c hpc hlock =>
+      have hstep := Step.acquire (F := F) s.abs t id c (by simp [FSys.abs, hpc, FPc.abs]) (by simp [FSys.abs, hlock])
+      refine cast ?_ (Exec.step ih hstep)
+      congr 1
+      simp only [FSys.abs]
+      congr 1
+      · simp [hlock, FPc.start?]
+      · rw [abs_upd]; rfl
+    | micro t id c start tr f hpc =>
+      have hlt := hinv.mutex t (by rw [hpc]; rfl)
+      refine cast ?_ ih
+      congr 1
+      simp only [FSys.abs]
+      congr 1
+      · simp [hlt, hpc, FPc.start?]
+      · rw [abs_upd]
+        exact (upd_self _ t _ (by simp [hpc, FPc.abs])).symm
+    | finish t id c start tr hpc hprog =>
+      have hlt := hinv.mutex t (by rw [hpc]; rfl)
+      have hg : s.abs.g = start := by simp [FSys.abs, hlt, hpc, FPc.start?]
+      have hsg : s.g = (seqStep F start c).1 := by rw [hinv.atomic t id c start tr hpc, hprog]
+      have h1 := Exec.step ih (Step.exec (F := F) s.abs t id c (by simp [FSys.abs, hpc, FPc.abs]))
+      have h2 := Exec.step h1 (Step.release _ t id c (seqStep F s.abs.g c).2 (by simp))
+      refine cast ?_ h2
+      congr 1
+      rw [hg]
+      simp only [FSys.abs]
+      congr 1
+      · exact hsg.symm
+      · rw [abs_upd, upd_upd]; rfl
+    | respond t id c r hpc =>
+      have hstep := Step.respond (F := F) s.abs t id c r (by simp [FSys.abs, hpc, FPc.abs])
+      refine cast ?_ (Exec.step ih hstep)
+      congr 1
+      simp only [FSys.abs]
+      congr 1
+      · exact (hgsame t _ (by rw [hpc]; rfl)).symm
+      · rw [abs_upd]; rfl
+
+
 end PolyVerif.Linz
